@@ -409,6 +409,29 @@ theorem c01_quiescent_all_delivered {s : QState} (hr : Reachable s) (hp : s.push
   rw [hw, hring] at this
   simpa [holding] using this
 
+/-- **Trace specification (T-trace).** The executable predicate the driver evaluates on histories of
+real multi-threaded runs holds of every reachable state of the model without overflow: each producer's
+delivered entries are a prefix of that producer's pushes; and all of them once the queue is drained
+(nothing in flight). -/
+theorem c01_spec_accepts {s : QState} (hr : Reachable s) (h0 : s.overflow = 0) (n : Nat)
+    (hn : ∀ e ∈ s.pushOrder, e.1 < n) :
+    Spec.acceptOrder n s.pushOrder (delivered s.log) false false = true ∧
+    (holding s.wpc = [] → s.ring = [] → Spec.acceptOrder n s.pushOrder (delivered s.log) false true = true) := by
+  have hex := (c01_exactly_once hr h0).1
+  have hsub : ∀ e ∈ delivered s.log, e.1 < n := by
+    intro e he; exact hn e (by rw [← hex]; simp [he])
+  constructor
+  · simp only [Spec.acceptOrder, Bool.and_eq_true, List.all_eq_true]
+    refine ⟨fun p _ => ?_, fun e he => by simpa using hsub e he⟩
+    simp only [Spec.producerPrefix, Spec.ofProducer, Bool.false_eq_true, if_false]
+    exact List.isPrefixOf_iff_prefix.mpr (c01_per_producer_order hr h0 p)
+  · intro hh hr0
+    rw [hh, hr0] at hex
+    simp only [List.append_nil] at hex
+    simp only [Spec.acceptOrder, Bool.and_eq_true, List.all_eq_true]
+    refine ⟨fun p _ => ?_, fun e he => by simpa using hsub e he⟩
+    simp [Spec.producerPrefix, hex]
+
 /-! ## Non-vacuity: three producers, seven events -/
 
 def nvClock1 : Clock := ⟨false, false, false, true⟩
@@ -428,3 +451,4 @@ end Queue
 #print axioms Queue.c01_errors_independent
 #print axioms Queue.c01_no_lost_wakeup
 #print axioms Queue.c01_quiescent_all_delivered
+#print axioms Queue.c01_spec_accepts
